@@ -82,7 +82,41 @@ static void cross_cases(Harness &H, const std::string &d0, const Grid<S> &g, siz
   }
 }
 
+// long supports (size as an alphabet)
+static void large_cases(Harness &H) {
+  for (size_t n : std::vector<size_t>{34, 67}) {
+    auto pts = grid_family("uni", n);
+    for (size_t i = 0; i < n; i++) pts[i] = pts[i] * pts[i] / mpq_class((long)n) + pts[i] / 3 - 5;
+    Grid<S> g = mkgrid<S>(pts);
+    auto v = mkspline_p<S, 1>(g, Win{3, n - 4}, (n - 8) * 2 + 1);
+    RefPP rv = alpha(v);
+    for (Win w : {Win{0, n}, Win{1, n - 1}, Win{n / 2 - 1, n}, Win{0, n / 2 + 2}})
+      for (int kind = 0; kind < 3; kind++) {
+        if (!H.take()) continue;
+        static const char *kn[] = {"I", "X2", "V*Dx1"};
+        H.begin("large" + std::to_string(n) + ";LF;" + kn[kind] + ";o3;" + wstr(w));
+        auto sa = mkspline_p<S, 3>(g, w, w.nint() * 4 + 1);
+        AstP a1 = kind == 0 ? aI() : kind == 1 ? aX(2) : aProd(aV(&rv), aD(1));
+        mpq_class ex = rinteg(ref_apply(*a1, alpha(sa)), pts), got, bf;
+        Outcome oc = attempt([&] {
+          if (kind == 0) { got = val(LinearForm{}(sa)); }
+          else if (kind == 1) { got = val(LinearForm{X<2>{}}(sa)); }
+          else { got = val(LinearForm{SplineOperator{v} * Dx<1>{}}(sa)); }
+          bf = val(BilinearForm{X<1>{}, Dx<1>{}}(sa, v));
+          mpq_class lf = val(LinearForm{}((X<1>{} * sa) * (Dx<1>{} * v)));
+          if (bf != lf) H.fail("cross", "bilinear form != linear form of the product on long supports");
+        });
+        if (oc.threw()) H.fail("linear:threw", oc.str());
+        else if (got != ex) H.fail("linear", std::string(kn[kind]) + " on a long support gives " + got.get_str() + ", exact integral = " + ex.get_str());
+        H.cls("large");
+        if (ex != 0) H.nontriv();
+        H.end();
+      }
+  }
+}
+
 static void run(Harness &H) {
+  large_cases(H);
   size_t n = 5;
   std::vector<std::string> fams = H.thorough() ? std::vector<std::string>{"nonuni", "far", "neg", "sym"} : std::vector<std::string>{"nonuni", "far", "sym"};
   for (auto fam : fams) {
